@@ -474,9 +474,11 @@ class HPallet(Batch):
 class HGen(PartGenerator):
     """Part generator that stamps every leaf part with a harness uid."""
 
-    def __init__(self, src_id, values, qualities, batch_sizes, log, scratch=False, batch_sub=False):
+    def __init__(self, src_id, values, qualities, batch_sizes, log, scratch=False, batch_sub=False,
+                 batch_nested=False):
         super().__init__(name_prefix=src_id)
         self.batch_sub = batch_sub
+        self.batch_nested = batch_nested
         self.scratch = [] if scratch else None
         self.src_id = src_id
         self.values = values
@@ -485,7 +487,8 @@ class HGen(PartGenerator):
         self.log = log
 
     def __deepcopy__(self, memo):
-        return HGen(self.src_id, self.values, self.qualities, self.batch_sizes, NULL_LOG, batch_sub=self.batch_sub)
+        return HGen(self.src_id, self.values, self.qualities, self.batch_sizes, NULL_LOG, batch_sub=self.batch_sub,
+                    batch_nested=self.batch_nested)
 
     def _leaf(self, name, n, k, j):
         v = self.values[j % len(self.values)]
@@ -507,6 +510,12 @@ class HGen(PartGenerator):
                 self.scratch.clear()
                 self.scratch.extend(parts)
                 top = Batch(name=part_name, parts=self.scratch)
+            elif self.batch_nested and len(parts) >= 2:
+                # a pallet of boxes: a Batch whose parts are Batches
+                k = max(1, len(parts) // 2)
+                boxes = [Batch(name=f'{part_name}/box{j}', parts=parts[j * k:(j + 1) * k] if j == 0 else parts[k:])
+                         for j in range(2)]
+                top = Batch(name=part_name, parts=boxes)
             elif self.batch_sub:
                 top = HPallet(part_name, parts, n)
             else:
@@ -582,7 +591,8 @@ def build(spec, bus=None, script=True, system=None, known=None):
         ups = [w.devs[u] if u in w.devs else known[u] for u in it.get('up', [])]
         if k == 'source':
             gen = cls['HGen'](i, it.get('values', [0]), it.get('qualities', [1]), it.get('batch'), log,
-                              scratch=bool(it.get('scratch')), batch_sub=bool(it.get('batch_sub')))
+                              scratch=bool(it.get('scratch')), batch_sub=bool(it.get('batch_sub')),
+                              batch_nested=bool(it.get('batch_nested')))
             kw = {}
             if it.get('budget') is not None:
                 kw['starting_parts'] = it['budget']
